@@ -54,30 +54,18 @@ Proof.
   apply G. cbn [fst]. rewrite upd_length. reflexivity.
 Qed.
 
-(* result of a hex operation: the mesh it leaves behind *)
-Definition hmesh (s : mesh) (o : houtcome) : mesh := match o with HOk s' _ => s' | HUB => s end.
-
-Lemma shape_add_cell_o s l chk : hex_shape s -> length l = 6 -> hex_shape (hmesh s (add_cell_o s l chk)).
-Proof.
-  intros K L. unfold add_cell_o. destruct (chk && negb (cell_check_o s l)); [exact K|].
-  destruct (all_some l) as [r|] eqn:E; [|exact K].
-  pose proof (all_some_length l r E) as Lr.
-  destruct (fc_append_cell s r) as (a&b&_). destruct (append_cell s r) as [s' c]. cbn [hmesh fst] in *.
-  destruct K as [F C]. split; [rewrite a; exact F|]. rewrite b. apply Forall_app. split; [exact C|].
-  constructor; [lia | constructor].
-Qed.
-
-Lemma shape_hex_add_cell s hfs chk : hex_shape s -> hex_shape (hmesh s (hex_add_cell s hfs chk)).
+Lemma shape_hex_add_cell s hfs chk : hex_shape s -> hex_shape (fst (hex_add_cell s hfs chk)).
 Proof.
   intros K. unfold hex_add_cell.
   destruct (Nat.eqb_spec (length hfs) 6) as [E|E]; cbn [negb]; [|exact K].
   destruct (negb (forallb _ hfs)); [exact K|].
   destruct chk; cbn [negb].
-  - destruct (check_halfface_ordering s hfs).
-    + pose proof (kshape_add_cell 4 6 s hfs true K E) as H. destruct (add_cell s hfs true). exact H.
-    + destruct (reorder_bottom s hfs) as [b|]; [|exact K].
-      apply shape_add_cell_o; [exact K|]. rewrite upd_length. apply reorder_top_length.
-  - pose proof (kshape_add_cell 4 6 s hfs false K E) as H. destruct (add_cell s hfs false). exact H.
+  - destruct (check_halfface_ordering s hfs); [apply kshape_add_cell; assumption|].
+    destruct (reorder_bottom s hfs) as [b|]; [|exact K].
+    destruct (all_some (upd 1 (Some b) (reorder_top s hfs))) as [l|] eqn:A; [|exact K].
+    destruct (check_halfface_ordering s l); [|exact K].
+    apply kshape_add_cell; [exact K|]. rewrite (all_some_length _ _ A), upd_length. apply reorder_top_length.
+  - apply kshape_add_cell; assumption.
 Qed.
 
 Lemma shape_hex_add_cell_v s vs chk : hex_shape s -> hex_shape (fst (hex_add_cell_v s vs chk)).
@@ -121,16 +109,14 @@ Definition outside_partial_hex (s : mesh) (o : hop) : bool :=
 Theorem hex_shape_step s o s' r : hex_shape s -> outside_partial_hex s o = false -> hex_step s o = HROk s' r -> hex_shape s'.
 Proof.
   intros K O. unfold hex_step. destruct (hex_valid s o) eqn:V; [|discriminate].
-  destruct (hex_exec s o) as [s1 r1|] eqn:E; [|discriminate]. intros H. inversion H; subst. clear H.
+  destruct (hex_exec s o) as [s1 r1] eqn:E. intros H. inversion H; subst. clear H.
   destruct o as [k|vs chk]; cbn [hex_exec] in E; cbn [hex_valid] in V.
   - cbn [outside_partial_hex] in O.
-    destruct k; try (match type of E with (let '(a, b) := exec s ?k in HOk a b) = _ =>
-                       destruct (exec s k) as [s2 r2] eqn:E'; inversion E; subst;
-                       unfold hex_shape in *; eapply (shape_exec_kernel 4 6); [exact K | exact V | exact O | | | | exact E']; intros; discriminate end).
-    + pose proof (shape_hex_add_face s hes check K) as H. destruct (hex_add_face s hes check). inversion E; subst. exact H.
-    + pose proof (shape_hex_add_face_v s vs K) as H. destruct (hex_add_face_v s vs). inversion E; subst. exact H.
+    destruct k; try (unfold hex_shape in *; eapply (shape_exec_kernel 4 6); [exact K | exact V | exact O | | | | exact E]; intros; discriminate).
+    + pose proof (shape_hex_add_face s hes check K) as H. rewrite E in H. exact H.
+    + pose proof (shape_hex_add_face_v s vs K) as H. rewrite E in H. exact H.
     + pose proof (shape_hex_add_cell s hfs check K) as H. rewrite E in H. exact H.
-  - pose proof (shape_hex_add_cell_v s vs chk K) as H. destruct (hex_add_cell_v s vs chk). inversion E; subst. exact H.
+  - pose proof (shape_hex_add_cell_v s vs chk K) as H. rewrite E in H. exact H.
 Qed.
 
 Fixpoint inside_along_hex (s : mesh) (ops : list hop) : Prop :=
@@ -146,9 +132,8 @@ Theorem hex_shape_run_from : forall ops s, hex_shape s -> inside_along_hex s ops
 Proof.
   induction ops as [|o t IH]; intros s K H; [exact K|].
   unfold hex_run_from. simpl. fold (hex_run_from (match hex_step s o with HROk s' _ => s' | _ => s end) t).
-  simpl in H. destruct (hex_step s o) as [s' r| |] eqn:E.
+  simpl in H. destruct (hex_step s o) as [s' r|] eqn:E.
   - destruct H as [O H]. apply IH; [eapply hex_shape_step; eassumption | exact H].
-  - apply IH; assumption.
   - apply IH; assumption.
 Qed.
 
@@ -299,35 +284,6 @@ End Positions.
 Lemma append_cell_handle s l : snd (append_cell s l) = nc s.
 Proof. unfold append_cell. cbv zeta. destruct (fbu _); reflexivity. Qed.
 
-(* what the checked add_cell can do: (a) return the invalid handle and leave the mesh UNCHANGED; (b) append exactly
-   one cell - the given list when it passes check_halfface_ordering, otherwise the re-ordered list - and touch no
-   face; (c) hit an invalid handle left by the re-ordering (HUB) *)
-Theorem hex_add_cell_checked_cases s hfs :
-  hex_add_cell s hfs true = HUB \/
-  hex_add_cell s hfs true = HOk s None \/
-  exists s' l, hex_add_cell s hfs true = HOk s' (Some (nc s)) /\ cells s' = cells s ++ [l] /\ faces s' = faces s /\
-               length l = 6 /\
-               ((check_halfface_ordering s hfs = true /\ l = hfs) \/
-                (check_halfface_ordering s hfs = false /\
-                 exists b, reorder_bottom s hfs = Some b /\ all_some (upd 1 (Some b) (reorder_top s hfs)) = Some l)).
-Proof.
-  unfold hex_add_cell.
-  destruct (Nat.eqb_spec (length hfs) 6) as [E|E]; cbn [negb]; [|right; left; reflexivity].
-  destruct (negb (forallb _ hfs)); [right; left; reflexivity|].
-  destruct (check_halfface_ordering s hfs) eqn:C.
-  - unfold add_cell. destruct (true && negb (cell_check s hfs)); [right; left; reflexivity|].
-    right. right. destruct (fc_append_cell s hfs) as (a&b&_). pose proof (append_cell_handle s hfs) as R.
-    destruct (append_cell s hfs) as [s' c]. cbn [fst snd] in *. subst c. exists s', hfs.
-    repeat split; try assumption. left. split; reflexivity.
-  - destruct (reorder_bottom s hfs) as [b|] eqn:B; [|right; left; reflexivity].
-    unfold add_cell_o. destruct (true && negb (cell_check_o s _)); [right; left; reflexivity|].
-    destruct (all_some (upd 1 (Some b) (reorder_top s hfs))) as [l|] eqn:A; [|left; reflexivity].
-    right. right. destruct (fc_append_cell s l) as (a&b'&_). pose proof (append_cell_handle s l) as R.
-    destruct (append_cell s l) as [s' c]. cbn [fst snd] in *. subst c. exists s', l.
-    pose proof (all_some_length _ _ A) as Ll. rewrite upd_length, reorder_top_length in Ll.
-    repeat split; try assumption. right. split; [reflexivity|]. exists b. split; [reflexivity | exact A].
-Qed.
-
 (* the halfface lists of a state do not depend on its cells: the ordering check of a stored list is the check that
    was made when it was accepted *)
 Lemma halfface_faces s t hf : faces t = faces s -> halfface t hf = halfface s hf.
@@ -352,15 +308,46 @@ Proof.
   rewrite !G. reflexivity.
 Qed.
 
-(* accepted without re-ordering: the stored list passes the ordering check in the new state *)
-Theorem hex_add_cell_direct_stores_ordered s hfs s' c :
-  check_halfface_ordering s hfs = true -> hex_add_cell s hfs true = HOk s' (Some c) ->
-  cell_at s' c = hfs /\ check_halfface_ordering s' (cell_at s' c) = true.
+(* base add_cell with check: rejected and unchanged, or the list appended as cell nc s *)
+Lemma add_cell_cases s l chk : (add_cell s l chk = (s, None)) \/
+  exists s', add_cell s l chk = (s', Some (nc s)) /\ cells s' = cells s ++ [l] /\ faces s' = faces s.
 Proof.
-  intros C H. destruct (hex_add_cell_checked_cases s hfs) as [U|[R|(s1&l&E&Cs&Fs&_&[[_ ->]|[C' _]])]]; try congruence.
-  rewrite E in H. inversion H; subst s1 c.
-  assert (X : cell_at s' (nc s) = hfs) by (unfold cell_at, nc; rewrite Cs, app_nth2, Nat.sub_diag by lia; reflexivity).
-  split; [exact X|]. rewrite X, (check_ordering_faces s s' hfs Fs). exact C.
+  unfold add_cell. destruct (chk && negb (cell_check s l)); [left; reflexivity|]. right.
+  destruct (fc_append_cell s l) as (a&b&_). pose proof (append_cell_handle s l) as R.
+  destruct (append_cell s l) as [s' c]. cbn [fst snd] in *. subst c. exists s'. repeat split; assumption.
+Qed.
+
+(* THE CONTRACT of the topology-checked add_cell (after the fix "checked hex add_cell must reject what the re-ordering
+   could not bring into order"): it returns the invalid handle and leaves the mesh unchanged, or it appends exactly one
+   cell whose stored list of six halffaces - the given list, or its re-ordering starting with the same halfface
+   entries - passes the ordering check (neighbours of the first halfface in the order 2,4,3,5, of the second in the
+   order 3,4,2,5) in the new state; no face is touched *)
+Theorem hex_add_cell_checked s hfs s' r : hex_add_cell s hfs true = (s', r) ->
+  (r = None /\ s' = s) \/
+  (exists l, r = Some (nc s) /\ cells s' = cells s ++ [l] /\ faces s' = faces s /\ cell_at s' (nc s) = l /\ length l = 6 /\
+             check_halfface_ordering s' l = true /\
+             (l = hfs \/ exists b, reorder_bottom s hfs = Some b /\ all_some (upd 1 (Some b) (reorder_top s hfs)) = Some l)).
+Proof.
+  unfold hex_add_cell.
+  destruct (Nat.eqb_spec (length hfs) 6) as [E|E]; cbn [negb]; [|intros H; inversion H; left; split; reflexivity].
+  destruct (negb (forallb _ hfs)); [intros H; inversion H; left; split; reflexivity|].
+  assert (G : forall l, length l = 6 -> check_halfface_ordering s l = true -> add_cell s l true = (s', r) ->
+              (r = None /\ s' = s) \/
+              (exists l0, r = Some (nc s) /\ cells s' = cells s ++ [l0] /\ faces s' = faces s /\ cell_at s' (nc s) = l0 /\ length l0 = 6 /\
+                          check_halfface_ordering s' l0 = true /\ l0 = l)).
+  { intros l L C H. destruct (add_cell_cases s l true) as [R|(s1&R&Cs&Fs)]; rewrite R in H; inversion H; subst.
+    - left. split; reflexivity.
+    - right. exists l. repeat split; try assumption.
+      + unfold cell_at, nc. rewrite Cs, app_nth2, Nat.sub_diag by lia. reflexivity.
+      + rewrite (check_ordering_faces s s' l Fs). exact C. }
+  destruct (check_halfface_ordering s hfs) eqn:C.
+  - intros H. destruct (G hfs E C H) as [L|(l0&a&b&c&d&e&f&g)]; [left; exact L|]. rewrite g in *. right. exists hfs. repeat split; try assumption. left. reflexivity.
+  - destruct (reorder_bottom s hfs) as [b|] eqn:B; [|intros H; inversion H; left; split; reflexivity].
+    destruct (all_some (upd 1 (Some b) (reorder_top s hfs))) as [l|] eqn:A; [|intros H; inversion H; left; split; reflexivity].
+    destruct (check_halfface_ordering s l) eqn:Cl; [|intros H; inversion H; left; split; reflexivity].
+    pose proof (all_some_length _ _ A) as Ll. rewrite upd_length, reorder_top_length in Ll.
+    intros H. destruct (G l Ll Cl H) as [L|(l0&a&b0&c&d&e&f&g)]; [left; exact L|]. rewrite g in *. right. exists l. repeat split; try assumption.
+    right. exists b. split; [reflexivity | exact A].
 Qed.
 
 (* the re-ordering on a halfface with four halfedges each of which has a neighbour in the list: no invalid entry, the
@@ -373,24 +360,6 @@ Lemma reorder_top_four s hfs e0 e1 e2 e3 a0 a1 a2 a3 :
   get_adjacent_halfface s (Some (hx hfs 0)) (Some e3) hfs = Some a3 ->
   reorder_top s hfs = [Some (hx hfs 0); None; Some a0; Some a2; Some a1; Some a3].
 Proof. intros H A0 A1 A2 A3. unfold reorder_top. rewrite H. cbn [fold_left]. rewrite A0, A1, A2, A3. reflexivity. Qed.
-
-(* hence: when every halfedge of the first halfface has a neighbour in the list, the re-ordering path never reaches HUB *)
-Theorem hex_add_cell_no_ub s hfs e0 e1 e2 e3 a0 a1 a2 a3 :
-  halfface s (hx hfs 0) = [e0; e1; e2; e3] ->
-  get_adjacent_halfface s (Some (hx hfs 0)) (Some e0) hfs = Some a0 ->
-  get_adjacent_halfface s (Some (hx hfs 0)) (Some e1) hfs = Some a1 ->
-  get_adjacent_halfface s (Some (hx hfs 0)) (Some e2) hfs = Some a2 ->
-  get_adjacent_halfface s (Some (hx hfs 0)) (Some e3) hfs = Some a3 ->
-  hex_add_cell s hfs true <> HUB.
-Proof.
-  intros H A0 A1 A2 A3. unfold hex_add_cell.
-  destruct (negb (length hfs =? 6)); [discriminate|]. destruct (negb (forallb _ hfs)); [discriminate|]. cbn [negb].
-  destruct (check_halfface_ordering s hfs); [destruct (add_cell s hfs true); discriminate|].
-  destruct (reorder_bottom s hfs) as [b|]; [|discriminate].
-  rewrite (reorder_top_four s hfs e0 e1 e2 e3 a0 a1 a2 a3 H A0 A1 A2 A3).
-  unfold add_cell_o. destruct (true && negb (cell_check_o s _)); [discriminate|]. cbn.
-  destruct (append_cell s _); discriminate.
-Qed.
 
 (* ================================================================== 5. sheet circulators *)
 
@@ -486,7 +455,7 @@ Fixpoint perms (l : list nat) : list (list nat) :=
    library's own ordering check, and starts with the first given halfface *)
 Definition perm_ok (p : list nat) : bool :=
   match hex_add_cell cube_faces p true with
-  | HOk s' (Some c) =>
+  | (s', Some c) =>
       let l := cell_at s' c in
       (c =? 0) && (if list_eq_dec Nat.eq_dec (sort_nat l) (sort_nat p) then true else false) &&
       hex_layout s' l && check_halfface_ordering s' l && (nth 0 l 0 =? nth 0 p 0)
@@ -499,38 +468,35 @@ Proof. vm_compute. split; reflexivity. Qed.
 (* every one of the 720 orderings of the canonical cube's halffaces is accepted by the checked add_cell and stored
    in the documented layout *)
 Theorem checked_add_cell_reorders_every_permutation p : In p (perms [0; 2; 4; 6; 8; 10]) ->
-  exists s' , hex_add_cell cube_faces p true = HOk s' (Some 0) /\
+  exists s' , hex_add_cell cube_faces p true = (s', Some 0) /\
               hex_layout s' (cell_at s' 0) = true /\ check_halfface_ordering s' (cell_at s' 0) = true /\
               nth 0 (cell_at s' 0) 0 = nth 0 p 0.
 Proof.
   intros H. pose proof (proj1 (forallb_forall _ _) (proj2 all_720_permutations_ok) p H) as K. unfold perm_ok in K.
-  destruct (hex_add_cell cube_faces p true) as [s' [c|]|]; try discriminate.
+  destruct (hex_add_cell cube_faces p true) as [s' [c|]]; try discriminate.
   repeat (apply andb_true_iff in K; destruct K as [K ?]). apply Nat.eqb_eq in K. subst c.
   exists s'. repeat split; try assumption. apply Nat.eqb_eq. assumption.
 Qed.
 
-(* the lead of the design phase, decided: a list that is NOT a hexahedron reaches the invalid handle *)
+(* the two former counterexamples are now rejected with the mesh unchanged: six live quad halffaces that are not a
+   hexahedron (the re-ordering leaves an invalid handle) ... *)
 Definition ub_witness : list hop :=
   [HK (AddVertices 12);
    HK (AddFaceV [0; 1; 5; 4]); HK (AddFaceV [0; 3; 2; 1]); HK (AddFaceV [4; 5; 6; 7]); HK (AddFaceV [1; 2; 6; 5]);
    HK (AddFaceV [2; 3; 7; 6]); HK (AddFaceV [3; 0; 4; 7]); HK (AddFaceV [8; 9; 10; 11])].
 
-Lemma checked_add_cell_ub_refuted :
+Example invalid_handle_list_rejected :
   let s := hex_run ub_witness in
-  hex_valid s (HK (AddCell [5; 7; 9; 11; 3; 12] true)) = true /\ hex_step s (HK (AddCell [5; 7; 9; 11; 3; 12] true)) = HRUB.
+  hex_valid s (HK (AddCell [5; 7; 9; 11; 3; 12] true)) = true /\ hex_step s (HK (AddCell [5; 7; 9; 11; 3; 12] true)) = HROk s None.
 Proof. vm_compute. split; reflexivity. Qed.
 
-(* ---- "accepted with topology check => documented layout" is refuted: a closed quad surface of six faces that is not a
-   cube (a quadrangulation of the sphere with a vertex of degree two; the first and the "bottom" halfface share vertex
-   0) is accepted through the re-ordering path.  T=(0,1,2,3) S1=(1,0,4,5) S2=(2,1,5,6) S3=(3,2,6,7) S4=(6,0,3,7)
-   B=(5,4,0,6) *)
+(* ... and a closed surface of six quads that is not a cube (a quadrangulation of the sphere with a vertex of degree
+   two): T=(0,1,2,3) S1=(1,0,4,5) S2=(2,1,5,6) S3=(3,2,6,7) S4=(6,0,3,7) B=(5,4,0,6) *)
 Definition weird_sphere : list hop :=
   [HK (AddVertices 8); HK (AddFaceV [0; 1; 2; 3]); HK (AddFaceV [1; 0; 4; 5]); HK (AddFaceV [2; 1; 5; 6]);
    HK (AddFaceV [3; 2; 6; 7]); HK (AddFaceV [6; 0; 3; 7]); HK (AddFaceV [5; 4; 0; 6])].
 
-Lemma checked_add_cell_layout_refuted :
+Example non_cube_surface_rejected :
   let s := hex_run weird_sphere in
-  exists s', hex_step s (HK (AddCell [0; 2; 4; 6; 8; 10] true)) = HROk s' (Some 0) /\
-             cell_at s' 0 = [0; 10; 2; 6; 4; 8] /\ hex_layout s' (cell_at s' 0) = false /\
-             hex_vertices s' 0 = Some [0; 3; 2; 1; 4; 5; 6; 0].
-Proof. vm_compute. eexists. repeat split. Qed.
+  hex_step s (HK (AddCell [0; 2; 4; 6; 8; 10] true)) = HROk s None /\ cell_check s [0; 10; 2; 6; 4; 8] = true.
+Proof. vm_compute. split; reflexivity. Qed.
